@@ -32,6 +32,12 @@ func (o Op) String() string {
 		return fmt.Sprintf("sched-provider-fails(p%d,node#%d)", o.A, o.B)
 	case "schedlost":
 		return fmt.Sprintf("sched-bind-response-lost(p%d,node#%d)", o.A, o.B)
+	case "schedff", "schedff2":
+		k := 1
+		if o.Kind == "schedff2" {
+			k = 2
+		}
+		return fmt.Sprintf("sched-with-api-call-%d-of-filter-failing-then-retried(p%d)", k, o.A)
 	case "stalesync":
 		return fmt.Sprintf("pod-ip-sync-of-deleted-incarnation(%d)", o.A)
 	case "delivercf":
@@ -57,7 +63,9 @@ func sameObject(a, b world.Event) bool {
 }
 
 // isSched: a scheduling attempt (Filter then Bind on an offered node), with or without a provider failure.
-func isSched(kind string) bool { return kind == "sched" || kind == "schedcf" || kind == "schedlost" }
+func isSched(kind string) bool {
+	return kind == "sched" || kind == "schedcf" || kind == "schedlost" || kind == "schedff" || kind == "schedff2"
+}
 
 // Obs is what an operation returned (used by oracles).
 type Obs struct {
@@ -146,6 +154,10 @@ func (h *HistSys) Enabled(w *world.World) []Op {
 			ops = append(ops, Op{Kind: "sched", A: i, B: 0})
 			if len(w.Cfg.Nodes) > 2 {
 				ops = append(ops, Op{Kind: "sched", A: i, B: 1})
+			}
+			if h.Ops["filterfault"] {
+				// one API call of the Filter fails (the first / the second); kube-scheduler tries the pod again
+				ops = append(ops, Op{Kind: "schedff", A: i}, Op{Kind: "schedff2", A: i})
 			}
 			if h.Ops["lostresp"] {
 				// the binding is applied by the API server but its response is lost; kube-scheduler tries again later
@@ -237,7 +249,7 @@ func (h *HistSys) Apply(w *world.World, op Op) Obs {
 	switch op.Kind {
 	case "create":
 		w.CreatePod(h.pod(op.A))
-	case "sched", "schedcf", "schedlost":
+	case "sched", "schedcf", "schedlost", "schedff", "schedff2":
 		if op.Kind == "schedlost" {
 			w.LoseBindResponse = true
 			defer func() { w.LoseBindResponse = false }()
@@ -249,7 +261,18 @@ func (h *HistSys) Apply(w *world.World, op Op) Obs {
 		key := h.pod(op.A).Key()
 		o.Before = w.MemDump()
 		pod := w.Pods[key]
+		if op.Kind == "schedff" {
+			w.ResetFault(1)
+		} else if op.Kind == "schedff2" {
+			w.ResetFault(2)
+		}
 		nodes, err := w.Filter(key)
+		if op.Kind == "schedff" || op.Kind == "schedff2" {
+			w.ResetFault(0)
+			if err != nil {
+				nodes, err = w.Filter(key) // the scheduler's next attempt
+			}
+		}
 		o.Offered = nodes
 		if err != nil {
 			o.Err = "filter: " + err.Error()
